@@ -52,6 +52,8 @@ fn place(c: &mut Cursor) -> Place {
         pre: if bits & 64 != 0 { c.u8() } else { 0 },
         post: if bits & 128 != 0 { c.u8() } else { 0 },
         indent: c.u8() % 9,
+        doc: f & 128 != 0,
+        container: if bits & 1 != 0 && bits & 2 != 0 { f % 5 } else { 0 },
     }
 }
 
